@@ -523,6 +523,33 @@ func (w *World) exec(q Query, rc *ReuseCtx) string {
 			out = append(out, fmt.Sprintf("icnt=%d", it.Count()))
 		}
 		return strings.Join(out, " ")
+	case "lfields", "lstored", "lterm", "ldv":
+		b, _, err := persist(seg)
+		if err != nil {
+			return "err"
+		}
+		lf, err := parseLFile(b)
+		if err != nil {
+			return "parse-err:" + err.Error()
+		}
+		var out string
+		switch q[0] {
+		case "lfields":
+			out = lf.fieldsDump()
+		case "lstored":
+			out, err = lf.storedDump()
+		case "lterm":
+			f, _ := unhx(q[2])
+			t, _ := unhx(q[3])
+			out, err = lf.termDump(string(f), t)
+		case "ldv":
+			f, _ := unhx(q[2])
+			out, err = lf.dvDump(string(f))
+		}
+		if err != nil {
+			return "parse-err:" + err.Error()
+		}
+		return out
 	case "stored":
 		n, _ := strconv.ParseUint(q[2], 10, 64)
 		stop, _ := strconv.Atoi(q[3])
